@@ -207,9 +207,13 @@ pub struct Counters {
     pub guard_checks: u64,
 }
 
+/// panic payload: an instance of a further data variant could not be built (not a verdict)
+pub struct SkipVariant(pub String);
+
 pub struct Out {
     pub entry: String,
     pub instance: String,
+    pub variant: u64,
     pub viols: Vec<Violation>,
     pub cnt: Counters,
     /// per format: round trips done
@@ -219,10 +223,10 @@ pub struct Out {
 
 impl Out {
     pub fn new(entry: &str, instance: &str) -> Out {
-        Out { entry: entry.to_string(), instance: instance.to_string(), viols: Vec::new(), cnt: Counters::default(), per_format: Default::default(), sample: None }
+        Out { entry: entry.to_string(), instance: instance.to_string(), variant: crate::data::variant(), viols: Vec::new(), cnt: Counters::default(), per_format: Default::default(), sample: None }
     }
     pub fn case(&self, format: &str) -> Value {
-        json!({"entry": self.entry, "instance": self.instance, "format": format})
+        json!({"entry": self.entry, "instance": self.instance, "variant": self.variant, "format": format})
     }
     pub fn viol(&mut self, shape: &str, format: &str, what: String) {
         let sig = format!("{}.{}", self.entry, shape);
@@ -231,6 +235,11 @@ impl Out {
     }
     /// a problem of the harness itself (fitting the instance failed ...): never a verdict
     pub fn machinery(&self, msg: &str) -> ! {
+        if self.variant > 0 {
+            // further data variants are best effort: a data set on which the instance cannot be
+            // built (fit fails, no such OPTICS sample ...) is counted as out of domain
+            std::panic::panic_any(SkipVariant(format!("{} / {} / variant {}: {}", self.entry, self.instance, self.variant, msg)));
+        }
         println!("MACHINERY-ERROR C19 entry {} instance {}: {}", self.entry, self.instance, msg);
         std::process::exit(2);
     }
